@@ -629,6 +629,13 @@ func (c *scen) forgeryScenarios() {
 		dgs[1] = MakeDG1(MakeTD3MRZ("DEU", "L898902C3"))
 		f("dg1-country-differs-from-certificates", "DG1 issuing state DEU (hash list matches), certificates C=NL", c.sod(NewSODSpec(c.ds, dgs, st)), dgs, nil)
 	}
+	for _, org := range []string{"UNO", "XOM", "EUE", "UTO", "XXA", "UNK"} {
+		// issuing "state" without an ISO 3166 country (an organisation / a code reserved for other uses), holder's
+		// nationality = the signer's country: there is no country the certificates could be "the same" as
+		dgs := copyDGs(c.dgs)
+		dgs[1] = MakeDG1(MakeTD3MRZNat(org, "NLD", "L898902C3"))
+		f("dg1-issuer-"+org+"-no-country-nationality-matches-certificates", "DG1 issuing state "+org+" (no ISO 3166 country), nationality NLD, certificates C=NL", c.sod(NewSODSpec(c.ds, dgs, st)), dgs, nil)
+	}
 	{
 		ca, ds := c.reissue(nil, func(s *CertSpec) { s.CorruptSignature = true })
 		f("cert-signature-corrupted", "one bit of the DS certificate's signature flipped", c.sod(NewSODSpec(ds, c.dgs, st)), nil, [][]byte{ca.Cert})
